@@ -65,6 +65,8 @@ def check_pairs(ctx):
         if name == 'Int':
             done.add(name)
             c05.check_codecs(ctx, ci)
+            from ..model import check_stale_derived
+            check_stale_derived(ctx, 'R9-ctor-derived-state', 'Int', clause='2')
         elif name == 'Data':
             done.add(name)
             sel = c06.check_selection(ctx)
